@@ -415,6 +415,15 @@ func (m *Manager) AllocateNAT(privateIP net.IP) (*Allocation, error) {
 	m.poolMu.Lock()
 	defer m.poolMu.Unlock()
 
+	// Re-check under the pool lock: a concurrent AllocateNAT for the same
+	// subscriber may have completed between the check above and this point
+	m.allocationMu.RLock()
+	if existing, ok := m.allocations[privKey]; ok {
+		m.allocationMu.RUnlock()
+		return existing, nil
+	}
+	m.allocationMu.RUnlock()
+
 	var selectedPool *PoolEntry
 	var poolIndex int
 	for i := range m.pool {
